@@ -298,13 +298,68 @@ def item(it):
   return res.r
 
 
+REPLAY_RENDER = '''
+sys.path.insert(0, '/verif')
+from checks.c16 import render_problem
+msg = render_problem(%(n)d, %(v)d)
+if msg: reproduced(msg)
+'''
+
+
+def render_problem(n, v):
+  """the two rendering methods on one concrete value, against digits produced bit by bit"""
+  from pymtl3.datatypes import Bits
+  digits = ''.join('1' if (v >> i) & 1 else '0' for i in reversed(range(n)))
+  x = Bits(n, v)
+  want_vcd = digits if n == 1 else f"b{digits} "
+  if x.to_vcd_str() != want_vcd: return f"Bits{n}({v:#x}).to_vcd_str() = {x.to_vcd_str()!r}, the {n} binary digits are {want_vcd!r}"
+  if x.bin() != '0b' + digits: return f"Bits{n}({v:#x}).bin() = {x.bin()!r}, expected {'0b' + digits!r}"
+  return None
+
+
+def item_render(it):
+  """the digit rendering itself is a C-level formatting of the payload (no symbolic value survives it): finite table --
+  every value of every width up to 6 bits, and boundary / alternating patterns at wider widths; plus one concrete
+  end-to-end dump per design with real digits"""
+  cover.start()
+  import warnings; warnings.filterwarnings('ignore')
+  res = Result("vcd/rendering")
+  cases = [(n, v) for n in range(1, 7) for v in range(1 << n)]
+  for n in (8, 31, 32, 33, 64, 65, 255, 1023):
+    M = (1 << n) - 1
+    cases += [(n, v & M) for v in (0, 1, M, M >> 1, (M >> 1) + 1, 0x5555555555555555555555 & M, int('10' * 600, 2) & M, 1 << (n // 2))]
+  for n, v in cases:
+    res['obligations'] += 1; res['states'] += 1
+    msg = render_problem(n, v)
+    if msg is None: res['discharged'] += 1
+    else: res['violations'].append(dict(key=f"vcd:rendering:{n} bits", what=msg, replay=REPLAY_RENDER % dict(n=n, v=v)))
+  from corpus import vcd_designs as VD
+  for name in VD.DESIGNS:
+    top = _design(name); top.elaborate()
+    ports = _inputs_of(top)
+    for pat in (lambda w, c: 0, lambda w, c: (1 << w) - 1, lambda w, c: (0xA5A5 >> c) & ((1 << w) - 1), lambda w, c: c % (1 << w)):
+      inputs = [{p: pat(w, c) for p, w in ports} for c in range(4)]
+      res['obligations'] += 1; res['states'] += 1
+      msg = concrete_run(name, inputs)
+      if msg is None: res['discharged'] += 1
+      else: res['violations'].append(dict(key=f"vcd:{name}:concrete dump", what=msg, replay=REPLAY % dict(name=name, inputs=inputs)))
+  res['transitions'] = res['states']
+  res['distinct'].append('vcd/rendering')
+  res['samples'].append(f"rendering table: {len(cases)} (width, value) pairs; {4 * len(VD.DESIGNS)} concrete end-to-end dumps")
+  return res.r
+
+
+def dispatch(it):
+  return item_render(it) if it.get('kind') == 'render' else item(it)
+
+
 def main():
   tier = sys.argv[1] if len(sys.argv) > 1 else 'quick'
   chk = Check('C16', tier)
   from corpus import vcd_designs as VD
   K = 3 if tier == 'quick' else 5
-  items = [dict(name=n, K=K) for n in VD.DESIGNS]
-  for it, r in pmap(item, items, item_timeout=900 if tier == 'quick' else 3600):
+  items = [dict(name='rendering', kind='render')] + [dict(name=n, K=K) for n in VD.DESIGNS]
+  for it, r in pmap(dispatch, items, item_timeout=900 if tier == 'quick' else 3600):
     chk.absorb(it, r)
   chk.bounds = dict(designs=list(VD.DESIGNS), cycles=K, inputs='every top-level input symbolic in every cycle, from the power-on state', reset='held low')
   chk.outside = ['designs outside the corpus (wider signals only change the terms, more nets multiply the paths by 2 per net and cycle)', 'sim_reset() sequences',
@@ -313,7 +368,7 @@ def main():
   chk.assumptions = ['Bits.to_vcd_str and Bits.bin return a value-comparing marker string for symbolic payloads', 'the dump functions run unwrapped inside the tick', 'open() inside VcdGenerationPass returns an in-memory file (fork mode: one copy per path)']
   chk.finish(rule="per design and path (= which nets were re-dumped in which cycle): the file written by the real VcdGenerationPass is read by an independent VCD reader; "
                   "one obligation per (signal, cycle) 'dumped value == value held before the edge', plus initial values, widths, the set of declared signals, clock toggling, "
-                  "and the same for the text-wave record")
+                  "and the same for the text-wave record; the digit rendering (Bits.to_vcd_str / Bits.bin) against a finite table and one concrete end-to-end dump per design and input pattern (direct comparison)")
 
 
 if __name__ == '__main__':
